@@ -18,23 +18,25 @@
 (* tests); they are supplied as module C15Data.                             *)
 EXTENDS ApiHistory, C15Data
 
-VARIABLES hid, i, obs, ev, stuck, known, done, pure
-tvars == <<vars, hid, i, obs, ev, stuck, known, done, pure>>
+VARIABLES hid, i, obs, ev, stuck, known, done, pure, enabled
+tvars == <<vars, hid, i, obs, ev, stuck, known, done, pure, enabled>>
 
 NoEv == [op |-> "Init", lay |-> "none", m |-> "none", keep |-> FALSE, f |-> FALSE, typ |-> "none",
-         cls |-> "none", k |-> "none", i |-> 0, chg |-> TRUE, refused |-> FALSE, err |-> FALSE, stored |-> TRUE,
+         cls |-> "none", k |-> "none", i |-> 0, chg |-> TRUE, own |-> TRUE, via |-> "copy", snapok |-> TRUE,
+         refused |-> FALSE, err |-> FALSE, stored |-> TRUE,
          qok |-> TRUE, frame |-> TRUE]
 
 StateRec == [layout |-> layout, nacm |-> nacm, massS |-> massS, massU |-> massU, dsT |-> dsT, dsF |-> dsF,
-             dm |-> dm, gv |-> gv, scd |-> scd, cp |-> cp, held |-> held]
+             dm |-> dm, gv |-> gv, scd |-> scd, cp |-> cp, held |-> held, rs |-> rs]
 
 TInit == Init /\ hid \in 1..Len(Histories) /\ i = 1 /\ ev = NoEv /\ stuck = FALSE
-         /\ known = {} /\ done = FALSE /\ pure = TRUE
+         /\ known = {} /\ done = FALSE /\ pure = TRUE /\ enabled = TRUE
          /\ obs = [layout |-> "none", nacm |-> "none", massS |-> "cur", massU |-> "cur", dsT |-> "none",
-                   dsF |-> FALSE, dm |-> NoDM, gv |-> "none", scd |-> "none", cp |-> NoCP, held |-> <<>>]
+                   dsF |-> FALSE, dm |-> NoDM, gv |-> "none", scd |-> "none", cp |-> NoCP, held |-> <<>>,
+                   rs |-> NoRS]
 
 Do(e) ==
-  \/ e.op = "SetFC" /\ SetFC(e.lay, e.keep)
+  \/ e.op = "SetFC" /\ SetFC(e.lay, e.keep, e.own)
   \/ e.op = "SetNAC" /\ SetNAC(e.m, e.keep)
   \/ e.op = "ClearNAC" /\ ClearNAC
   \/ e.op = "SetMasses" /\ SetMasses(e.keep)
@@ -43,10 +45,13 @@ Do(e) ==
   \/ e.op = "Cutoff" /\ Cutoff(e.chg)
   \/ e.op = "SetDataset" /\ SetDataset(e.f, e.typ, e.keep)
   \/ e.op = "SetDisplacements" /\ SetDisplacements
+  \/ e.op = "ClearDataset" /\ ClearDataset
+  \/ e.op = "InitRD" /\ InitRD
+  \/ e.op = "SetGV" /\ SetGV
   \/ e.op = "SetForces" /\ SetForces(e.keep)
   \/ e.op = "ProduceFC" /\ ProduceFC(e.lay)
   \/ e.op = "GetSCD" /\ GetSCD
-  \/ e.op = "Copy" /\ Copy
+  \/ e.op = "Copy" /\ Copy(e.via)
   \/ e.op = "Get" /\ Get(e.cls)
   \/ e.op = "Query" /\ Query(e.k)
   \/ e.op = "MutateHandle" /\ MutateHandle(e.i)
@@ -60,11 +65,15 @@ Guard(e) ==
     [] e.op \in {"Symmetrize", "Cutoff"} -> HasFC
     [] e.op = "SymmetrizeSG" -> layout = "full"
     [] e.op = "SetDisplacements" -> dsT # "t1"
+    [] e.op = "ClearDataset" -> dsT # "none"
+    [] e.op = "InitRD" -> HasFC
+    [] e.op = "SetGV" -> dm.on
+    [] e.op = "Copy" -> (e.via = "ph2ph" => HasFC)
     [] e.op \in {"SetForces", "GetSCD"} -> dsT # "none"
     [] e.op = "ProduceFC" -> dsT = "t1" /\ dsF
     [] e.op = "Get" -> /\ Len(held) < MaxHeld /\ SlotSet(SlotOf(e.cls))
                        /\ (e.cls \in {"displacements_getter", "forces_getter"} => dsT = "t2")
-    [] e.op = "Query" -> QueryEnabled(e.k)
+    [] e.op = "Query" -> e.k \in QueryKinds /\ QueryEnabled(e.k)
     [] e.op = "MutateHandle" -> e.i \in 1..Len(held) /\ (held[e.i].alias => EnvAliased)
     [] e.op = "Drop" -> e.i \in 1..Len(held)
     [] e.op = "MutateCopy" -> cp.on /\ (cp.shared => EnvAliased)
@@ -111,11 +120,14 @@ TStep ==
        /\ ev' = [x \in DOMAIN NoEv |-> e[x]]
        /\ obs' = e.obs
        /\ i' = i + 1 /\ hid' = hid /\ done' = FALSE
-       /\ IF e.refused
-            THEN (* the harness called outside the guard: the code has to refuse *)
-                 /\ UNCHANGED vars /\ stuck' = Guard(e)
+       /\ enabled' = Guard(e)
+       /\ IF e.refused \/ (~Guard(e) /\ e.err)
+            THEN (* called outside the guard and the code refused (or, if the harness *)
+                 (* announced a refusal, has to): nothing changes                     *)
+                 /\ UNCHANGED vars /\ stuck' = (e.refused /\ Guard(e))
             ELSE IF Guard(e) THEN Do(e) /\ stuck' = FALSE
-                             ELSE UNCHANGED vars /\ stuck' = TRUE
+                             ELSE (* the code answered a call the machine refuses *)
+                                  UNCHANGED vars /\ stuck' = TRUE
        /\ known' = Merge(known, KnownOf(e, e.obs, obs, taint', i))
        (* the caller's action does not go through an alias (decided in the pre-state) *)
        /\ pure' = IF ~Guard(e) THEN TRUE
@@ -128,7 +140,7 @@ TDone ==
   /\ (i > Len(Histories[hid]) \/ stuck) /\ ~done
   /\ PrintT(<<"C15KNOWN", hid, known>>)
   /\ done' = TRUE
-  /\ UNCHANGED <<vars, hid, i, obs, ev, stuck, known, pure>>
+  /\ UNCHANGED <<vars, hid, i, obs, ev, stuck, known, pure, enabled>>
 
 TNext == TStep \/ TDone
 TSpec == TInit /\ [][TNext]_tvars
@@ -138,9 +150,15 @@ TSpec == TInit /\ [][TNext]_tvars
 (* (with the implementation's aliasing) satisfies it: a VIOLATION.           *)
 (* (Failures the machine predicts as consequences of an aliasing class are   *)
 (* collected in `known`.)                                                    *)
-ImplNoError == ~ev.refused => ~ev.err
+ImplNoError == (enabled /\ ~ev.refused) => ~ev.err
 ImplRefuses == ev.refused => ev.err
 ImplRefuseFrame == ev.refused => ev.frame
+(* a query the machine cannot answer from the current contents (no current   *)
+(* mesh / generator: it was set up before a state change) must be refused by *)
+(* the implementation, not answered from the stale holder                    *)
+ImplRefusesStale == (stuck /\ ev.op = "Query" /\ ~ev.refused) => ev.err
+(* results obtained before a state change are still what they were           *)
+ImplSnapshotFrozen == ev.snapok
 (* a setter stores the content handed in, a getter returns the current       *)
 (* content (the displaced supercells: unless the machine says the cache is   *)
 (* stale, which only happens after the caller changed the dataset through an *)
@@ -174,4 +192,5 @@ ConformsGV == ~stuck => obs.gv = gv
 ConformsSCD == ~stuck => obs.scd = scd
 ConformsCopy == ~stuck => obs.cp = cp
 ConformsHeld == ~stuck => obs.held = NormHeld(held)
+ConformsResults == ~stuck => obs.rs = rs
 =============================================================================
